@@ -28,8 +28,11 @@ def run_with_file(opts, path, seed, scale=5.0, n=24, fail_at=None, resume_from=N
     payloads = []
     file_cb = s.default_file_checkpoint_callback(path)
 
+    live = []
+
     def cb(state):
         payloads.append((state["iteration"], pickle.dumps(state, protocol=pickle.HIGHEST_PROTOCOL)))
+        live.append(state)
         file_cb(state)
     kw = dict(opts)
     kw["checkpoint_callback"] = cb
@@ -41,7 +44,7 @@ def run_with_file(opts, path, seed, scale=5.0, n=24, fail_at=None, resume_from=N
         out = s.sample(n, rng=np.random.default_rng(seed + 1000), sampler_kwargs={"n_steps": 2}, **kw)
     except RuntimeError as e:
         exc = e
-    return {"out": out, "exc": exc, "sampler": s, "payloads": payloads, "problem": pr, "history": s.history}
+    return {"out": out, "exc": exc, "sampler": s, "payloads": payloads, "problem": pr, "history": s.history, "live": live}
 
 
 def file_bytes(path):
@@ -131,6 +134,12 @@ def native_C11(tier, seed):
             ref = run_with_file(o, path, seed + ci, scale=scale)
             want = _summary(ref)
             ncalls = ref["problem"].like_calls
+            # checkpoint dictionaries kept by a custom callback must stay what they were when written (no aliasing with the live sampler)
+            for j, (st, (it_j, blob)) in enumerate(zip(ref["live"], ref["payloads"])):
+                cases += 1
+                now = pickle.dumps(st, protocol=pickle.HIGHEST_PROTOCOL)
+                if len(pickle.loads(now)["history"].beta) != len(pickle.loads(blob)["history"].beta):
+                    fails.append({"id": f"C11-live-dict-{ci}-{j}", "obligation": "payload history is a copy", "what": f"the checkpoint dictionary of iteration {it_j} changed after it was written (history grew from {len(pickle.loads(blob)['history'].beta)} to {len(pickle.loads(now)['history'].beta)} entries)", "input": {"opts": o, "scale": scale, "seed": seed + ci}})
             step = 1 if tier == "thorough" else max(1, ncalls // 5)
             points = list(range(1, ncalls + 1, step)) + [None]          # None: resume from the final checkpoint of the finished run
             for k in points:
